@@ -146,7 +146,7 @@ package dns
 //@   ensures zero:  len(s) > 0 && n == 0 ==> i == len(s) && !start
 //@   ensures found: len(s) > 0 && n > 0 && i > 0 ==> !start && sep(s, i-1) && nsep(s, len(s)-1) - nsep(s, i-1) == n
 //@   ensures first: len(s) > 0 && n > 0 && i == 0 && !start ==> nsep(s, len(s)-1) + 1 == n
-//@   ensures over:  len(s) > 0 && n > 0 && start ==> i == 0 && nsep(s, len(s)-1) + 1 < n
+//@   ensures over:  len(s) > 0 && n > 0 && start ==> i == 0 && (isdot(s) ? 0 : nsep(s, len(s)-1) + 1) < n
 //@   ensures rng:   0 <= i && i <= len(s)
 // the root name has no labels (CountLabel(".") == 0): any step to the left overshoots
 //@   ensures rootover: isdot(s) && n > 0 ==> i == 0 && start
